@@ -355,6 +355,24 @@ func (vc *VC) get(st *State, name string, sort Sort) Term {
 		case "M_slice":
 			vc.q.Raw(fmt.Sprintf("(assert (forall ((r Int) (p Path)) (! (< (root (sbase %s)) %s) :pattern (%s))))", sel, a0, sel))
 		}
+		if strings.HasPrefix(name, "MV_") {
+			// values stored in maps of the initial heap also denote objects that existed at entry
+			inner := arrayValueSort(sort)
+			ks, vs := splitArraySort(inner)
+			msel := fmt.Sprintf("(select (select %s r) k)", cname)
+			var body string
+			switch vs {
+			case SPtr:
+				body = fmt.Sprintf("(< (root %s) %s)", msel, a0)
+			case SIface:
+				body = fmt.Sprintf("(< (root (ival %s)) %s)", msel, a0)
+			case SSlice:
+				body = fmt.Sprintf("(and (< (root (sbase %s)) %s) (<= 0 (soff %s)) (<= 0 (slen %s)) (<= (slen %s) (scap %s)))", msel, a0, msel, msel, msel, msel)
+			}
+			if body != "" {
+				vc.q.Raw(fmt.Sprintf("(assert (forall ((r Int) (k %s)) (! %s :pattern (%s))))", ks, body, msel))
+			}
+		}
 	}
 	return t
 }
